@@ -41,6 +41,9 @@ def stage_pty(ctx, stats, sigs):
         ([('W', b'DATA'), ('E',)], [0, 0, 0, 2], [(10, True), (10, True)], False),      # defect #7 (fixed): write+exit in the timed wait
         ([('W', b'abcabc'), ('E',)], [0, 0, 2], [(10, False), (10, False)], False),      # its timeout=0 variant
         ([('W', b'abc'), ('C',), ('E',)], [2, 0, 0, 0, 1], [(1, True)] * 5, True),
+        # a second write lands between the first read and the drain loop's re-poll: the call must still return at most `size`
+        ([('W', b'abc'), ('W', b'def'), ('W', b'gh'), ('E',)], [1, 0, 1, 0, 1, 0, 0, 0, 1, 0, 0, 0], [(5, True)] * 4, False),
+        ([('W', b'abcd'), ('W', b'efgh'), ('E',)], [1, 0, 1, 0, 0, 0, 1, 0, 0, 0], [(7, False)] * 3, True),
     ]
     for c in corpus:
         cases.append(c)
@@ -48,7 +51,7 @@ def stage_pty(ctx, stats, sigs):
         letters = rng.choice(PTY_SCRIPTS)
         script = mk_script(rng, letters)
         sched = [rng.choice([0, 0, 0, 1, 1, 2, 3]) for _ in range(14)]
-        size = rng.choice([1, 3, 2000, 65536])
+        size = rng.choice([1, 3, 4, 5, 7, 2000, 65536])
         calls = [(size, rng.random() < 0.6) for _ in range(rng.choice([2, 3, 5]))]
         cases.append((script, sched, calls, rng.random() < 0.3))
     lines = [T.pty_model_line(s, sc, c) for (s, sc, c, up) in cases]
